@@ -637,7 +637,7 @@ func (d *Driver) Check(only []Case) int {
 		"wall_s":      wall,
 		"violations":  nViol,
 	}
-	if only == nil {
+	if only == nil && os.Getenv("VERIF_EVIDENCE_OFF") == "" {
 		os.MkdirAll(filepath.Join(VerifDir, "evidence"), 0o755)
 		evPath := filepath.Join(VerifDir, "evidence", p.ID+".json")
 		tmp := evPath + fmt.Sprintf(".%d.tmp", os.Getpid())
